@@ -16,6 +16,41 @@ def plain(pkg, test, **kw):
     return d
 
 CHECKS = {
+    "C01": {
+        "level": "exploration",
+        "technique": "property-based testing (rapid): reflective message generator, reference-encoder differential + round trip + re-encode identity",
+        "level_text": "Generated-input exploration over the message space the public types can express: each generated request/response is (1) encoded and parsed by the independent TTLV parser and compared node for node with the tree a reference encoder (refwalk: pinned tags, pinned version table, hand rules for custom-encoded types) says must be emitted, (2) decoded and compared by content with the original, (3) re-encoded and compared byte for byte. Shrunk counterexamples. Right level: the statement quantifies over all messages x versions, far beyond enumerable.",
+        "level_note": "Trusts harness/ttlvref, the pinned tag/version tables and the struct definitions' field order (witnessed by the OASIS vectors in C04); batches <= 3 items, strings <= 40 runes, byte strings <= 70 bytes, big integers <= 560 bits.",
+        "jobs": [rapid("codec", "TestC01Messages", 4000, 15000)],
+        "assumptions": [
+            "well-formed = consistent choice types (one key material variant matching the key format, one credential variant matching the credential type, object type field equal to the object, Import carries an Object Type attribute), non-zero tags, payload only together with an operation, elements later than the header version cleared",
+            "Result Reason is expected iff it is non-zero or the status is Operation Failed (KMIP 1.4 section 6.10)",
+        ],
+    },
+    "C05": {
+        "level": "exploration",
+        "technique": "property-based testing (rapid): directed generation per (gated field, version), reference encoder with a pinned version table as oracle, both directions",
+        "level_text": "Generated-input exploration, exhaustive over rows x versions by coverage accounting (305 of 305 combinations are required to occur populated): each message is forced to contain the structure owning a version-dependent field, with random surroundings; the library's encoding at version V must equal the tree the reference encoder derives from the pinned (specification-transcribed) version table - field absent iff later than V, everything else present - and bytes carrying all later elements under a header of version V must decode to the full message.",
+        "level_note": "Trusts the pinned version table (61 rows reviewed against KMIP 1.1-1.4), harness/ttlvref and refwalk; surroundings bounded as in C01.",
+        "jobs": [rapid("codec", "TestC05Gating", 6000, 30000)],
+        "assumptions": ["versions 1.0..1.4 only", "first-version table pins/data/versions.json is a correct transcription of the specifications"],
+    },
+    "C06": {
+        "level": "exploration",
+        "technique": "property-based testing (rapid): generated batch items rendered by independent binary/XML/JSON writers, dispatch compared with pinned operation/object/attribute tables, byte-identity of re-encoding",
+        "level_text": "Generated-input exploration over operation codes (27 implemented, 16 named-only, arbitrary 32-bit) x direction x three encodings: the decoded payload's Go type must be the pinned one and report the same operation, objects and standard attributes must have their pinned types, unknown operations/attributes must survive as opaque TTLV whose re-encoding equals the reference bytes, unknown object types must be rejected.",
+        "level_note": "Trusts pins/data/{ops,objects,attributes}.json and the independent writers in harness/ttlvref; inputs bounded as in C01.",
+        "jobs": [rapid("codec", "TestC06Dispatch", 6000, 40000), rapid("codec", "TestC06UnknownObjectType", 2000, 20000, shards=4)],
+        "assumptions": ["a response item with operation 0 has no payload (outside the domain)", "tag 0 excluded from opaque payloads"],
+    },
+    "C17": {
+        "level": "exploration",
+        "technique": "exhaustive enumeration by the same generator (all 2^24 tags, all registered enumeration values and mask flags) plus rapid-drawn unregistered probes, against pinned tables and inverse-map/round-trip oracles",
+        "level_text": "The registry is finite, so it is enumerated completely (exhaustive: true): live tables == pinned tables in both directions, name->number and number->name mutually inverse within each scope, every entry written by name in XML/JSON/text and read back as the same number, typed MarshalText/UnmarshalText for every enumeration Go type reachable from the message types; unregistered numbers are written in hex and read back (rapid).",
+        "level_note": "Trusts the pinned snapshot pins/data/{tags,enums,masks}.json (292 tags 0x420001..0x420124 dense, 47 named enumerations with 601 values, 2 masks with 22 flags; cross-checked against the OASIS vector corpus in C04).",
+        "jobs": [plain("codec", "TestC17Registry"), rapid("codec", "TestC17Unregistered", 5000, 200000, shards=4)],
+        "assumptions": ["pinned tables were reviewed against the KMIP 1.4 specification tables at pin time"],
+    },
     "C03": {
         "level": "exploration",
         "technique": "property-based testing (rapid): differential against an independent TTLV codec, both directions",
@@ -32,4 +67,4 @@ CHECKS = {
 HOOK_COMMITS = []
 
 _PENDING = "check not built yet in this session (planned in DESIGN.md); not claimed until its machinery exists"
-NOT_APPLICABLE = {("C%02d" % i): _PENDING for i in range(1, 21)}
+NOT_APPLICABLE = {("C%02d" % i): _PENDING for i in range(1, 21) if ("C%02d" % i) not in CHECKS}
